@@ -691,6 +691,108 @@ def defaults_configs():
     return out, names
 
 
+# ---------------------------------------------------------------------------
+# the stdio entry points that take the caller's version list and run the handshake themselves
+# ---------------------------------------------------------------------------
+RUN_EP = "vf.checks.c03:run_entry_points"
+
+
+def run_entry_points(ctl: explorer.Ctl, cfg: Dict[str, Any]) -> Dict[str, Any]:
+    """cfg: entry ('transports.stdio' context manager | 'mcp_client' compatibility generator), list, pref, answer
+    ('echo' or a version).  A scripted child answers the initialize request; judged like any handshake."""
+    import json
+
+    from chuk_mcp.protocol.types.errors import NonRetryableError, RetryableError, VersionMismatchError
+
+    sup, pref = cfg["list"], cfg["pref"]
+    loop = new_loop(horizon=60)
+    proc = seams.FakeProcess()
+    seen: List[dict] = []
+    buf = {"b": b""}
+
+    def on_stdin(data: bytes):
+        buf["b"] += data
+        while b"\n" in buf["b"]:
+            line, buf["b"] = buf["b"].split(b"\n", 1)
+            try:
+                d = json.loads(line.decode("utf-8"))
+            except Exception:  # noqa: BLE001
+                continue
+            seen.append(d)
+            if d.get("method") == "initialize":
+                proposed = (d.get("params") or {}).get("protocolVersion")
+                v = proposed if cfg["answer"] == "echo" else cfg["answer"]
+                proc.stdout.feed((json.dumps({"jsonrpc": "2.0", "id": d.get("id"),
+                                              "result": {"protocolVersion": v, **CAPS}}) + "\n").encode())
+
+    proc.on_stdin = on_stdin
+    q = seams.Quiescence(loop)
+
+    async def main():
+        kw = {"timeout": 2.0, "supported_versions": list(sup), "preferred_version": pref}
+        with seams.patched_open_process(lambda cmd, k: proc):
+            try:
+                if cfg["entry"] == "transports.stdio":
+                    from chuk_mcp.transports.stdio.stdio_client import stdio_client_with_initialize
+
+                    async with stdio_client_with_initialize(seams.stdio_params(), **kw) as (r, w, init):
+                        await q.settle()
+                        return ("ok", getattr(init, "protocolVersion", None))
+                else:
+                    from chuk_mcp import mcp_client
+
+                    agen = mcp_client.stdio_client_with_initialize(seams.stdio_params(), **kw)
+                    try:
+                        r, w, init = await agen.__anext__()
+                        await q.settle()
+                        return ("ok", getattr(init, "protocolVersion", None))
+                    finally:
+                        await agen.aclose()
+            except VersionMismatchError:
+                return ("version-mismatch", None)
+            except TimeoutError:
+                return ("timeout", None)
+            except (RetryableError, NonRetryableError) as e:
+                return ("rpc-error", getattr(e, "code", None))
+            except BaseException as e:  # noqa: BLE001
+                return ("exception", type(e).__name__)
+
+    status, val = loop.run_main(main())
+    errors = loop.collect_errors()
+    loop.abandon()
+    if status != "ok":
+        return {"outcome": status, "violations": [{"sig": {"class": "did-not-finish", "part": "entry-points"}, "msg": f"cfg={cfg}: {status} {core.clean_repr(val)}"}]}
+    okind, oval = val
+    viol: List[dict] = []
+    inits = [d for d in seen if d.get("method") == "initialize"]
+    notes = [d for d in seen if d.get("method") == "notifications/initialized"]
+    proposed = (inits[0].get("params") or {}).get("protocolVersion") if inits else None
+    want = pref if (pref is not None and pref in sup) else sup[0]
+
+    def bad(cls, msg):
+        viol.append({"sig": {"class": cls, "part": "entry-points", "entry": cfg["entry"]},
+                     "msg": f"cfg={cfg}: {msg} [outcome={okind} {oval!r}; proposed {proposed!r}]"})
+
+    if len(inits) != 1:
+        bad("initialize-count", f"{len(inits)} initialize requests reached the child")
+    elif proposed != want:
+        bad("wrong-proposal", f"proposed {proposed!r}, the caller's list and preference call for {want!r}")
+    answered = proposed if cfg["answer"] == "echo" else cfg["answer"]
+    if inits and answered in sup:
+        if okind != "ok" or oval != answered:
+            bad("valid-answer-rejected", f"answer {answered!r} is in the caller's list")
+        elif len(notes) != 1:
+            bad("initialized-count", f"{len(notes)} initialized notifications on success")
+    elif inits:
+        if okind == "ok":
+            bad("accepted-unoffered-version", f"answer {answered!r} is not in the caller's list {sup}")
+        if notes:
+            bad("initialized-sent-on-failure", f"{len(notes)} initialized notifications")
+    if errors:
+        bad("loop-error", f"{errors[:2]}")
+    return {"outcome": okind, "violations": viol}
+
+
 def run(tier: str, only=None) -> core.Result:
     res = core.Result("C03", "model_checking")
     ls = lists(2 if tier == "quick" else 3)
@@ -740,6 +842,13 @@ def run(tier: str, only=None) -> core.Result:
                         cc.append({"lists": [l0, l1], "answers": [a0, a1], "start": start})
     out = explorer.explore(RUN_CC, cc, fidelity=True)
     sched.absorb(res, "two-overlapping-handshakes", RUN_CC, out, cc)
+    ep = [{"entry": e, "list": sup, "pref": pref, "answer": a}
+          for e in ("transports.stdio", "mcp_client")
+          for sup in (["2025-06-18"], ["2024-11-05"], ["2025-03-26", "2024-11-05"], ["2099-01-01", "2025-03-26"], ["2024-11-05", "2025-06-18"])
+          for pref in (None, sup[-1], "2025-06-18", "1999-12-31")
+          for a in ("echo", "2025-06-18", "2024-11-05", "1999-12-31")]
+    out = explorer.explore(RUN_EP, ep, fidelity=True)
+    sched.absorb(res, "stdio-entry-points-taking-the-callers-list", RUN_EP, out, ep)
     dc, gnames = defaults_configs()
     if len(gnames) < 1:
         res.harness_errors.append("[defaults] no public getter returning the supported-version list was discovered")
